@@ -85,6 +85,11 @@ CLAIMED = {
          "The variation space is a TLA+ model (1,260 configurations in the quick tier, 3,330 in the thorough tier) whose Key operator names exactly the parameters the output may depend on; every configuration is executed through the library or the built par binary in a fresh directory, and the trace specification - which carries state: the first output seen per key - rejects any execution whose written files differ from an earlier one with the same key, any failing Create, and any write outside the set.",
          "Three file sets per format; digests stand for bytes.",
          "DESIGN.md section 5 C17"),
+ "C15": ("model_checking",
+         "PathSafety.tla (lexical Clean/Contained + gopar's two acceptance rules): TLC proves rule => containment for all 2,340 names of the bounded alphabet; every name x position written by reference writers into a repairable archive inside a canary tree; real Verify/Repair/Create; whole-tree snapshot judged by TLC",
+         "TLC checks for every name over the component alphabet (parent, self, empty, dot-prefixed and ordinary components; leading/trailing separators) that the PAR2 and PAR1 acceptance rules imply lexical containment; each of those names is then placed at a position of an otherwise valid, fully repairable PAR2 and PAR1 archive written by the reference writers, with the declared files missing, inside a canary tree with decoys where an escaping name would land; the real Verify and Repair run, the whole tree is snapshotted before and after, and TLC asserts that nothing outside the archive's directory tree (PAR1: the directory itself) was created, modified or deleted; PAR2 Create is checked to refuse inputs outside the index file's tree and to write nothing when it refuses.",
+         "Lexical containment only (no symlinks); bounded name length/alphabet.",
+         "DESIGN.md section 5 C15"),
 }
 
 NOT_YET = "check under construction in this round; not claimed until it runs green on the unchanged tree"
